@@ -372,6 +372,7 @@ func TestC05(t *testing.T) {
 		kC05RT.Run(t, ev, perShard(pick(1200, 60000)))
 		kC05Hostile.Run(t, ev, perShard(pick(4000, 800000)))
 		kC05Str.Run(t, ev, perShard(pick(1000, 500000)))
+		kC05Alias.Run(t, ev, perShard(pick(40, 3000)))
 		runConcurrent(kC05Hostile, t, ev, perShard(pick(100, 10000)), 8)
 		ev.requireClasses("C05:accepted", "C05:rejected:ref: scalar out of range", "C05:rejected:ref: point not on curve",
 			"C05:rejected:ref: key data prefix", "C05:rejected:ref: checksum", "C05:rejected:ref: length",
